@@ -117,7 +117,7 @@ Section Det.
 
   Lemma inv_step : forall s m w o, inv s m w -> inv s (d_count_step S K step s m o) (d_step S K step w o).
   Proof.
-    intros s m w o Hinv. destruct o as [n|n act| | | |]; cbn [d_count_step d_step]; try exact Hinv.
+    intros s m w o Hinv. destruct o as [n|n act| | | | |]; cbn [d_count_step d_step]; try exact Hinv.
     - apply inv_generate. exact Hinv.
     - apply inv_scan. exact Hinv.
   Qed.
@@ -255,7 +255,7 @@ Section Idx.
 
   Lemma step_ok : forall w o, chains_ok K child w -> chains_ok K child (i_step K child w o).
   Proof.
-    intros w o Hok. destruct o as [j n|n act| | | | |]; cbn [i_step]; try exact Hok.
+    intros w o Hok. destruct o as [j n|n act| | | | | |]; cbn [i_step]; try exact Hok.
     - unfold i_generate. destruct (i_generate_at K child j j n w) as [w'|] eqn:E; [|exact Hok].
       apply (generate_at_ok w 0 j n w' Hok E).
     - unfold i_scan. destruct n; [exact Hok | apply scan_from_ok].
